@@ -244,9 +244,23 @@ pub fn judge(prog: &Program, d: Dialect, mo: ModernOpts, c: &mut Choices, st: &m
             }
             let entry = syms.iter().find(|(k, v)| is_hash_key(k) && *v == name && syms.contains_key(&format!("{k}_arguments")));
             // the table maps code hash -> one name: a function whose code is position-only (an
-            // accessor such as (defun F (A B) B)) shares its hash with every other function of
-            // the same shape (typically a lambda) and may be listed under that other name
-            let accessor = prog.helpers.iter().any(|h| matches!(h, Helper::Defun { name: n, body: Expr::Var(_), .. } if n == name));
+            // accessor such as (defun F (A B) B)) or a constant ((defun F (A) (list))) shares its
+            // hash with every other function of the same shape (typically a lambda) and may be
+            // listed under that other name
+            fn mentions_nothing(e: &Expr) -> bool {
+                // a constant body: no variable, no call
+                match e {
+                    Expr::Var(_) | Expr::Call { .. } | Expr::FunRef(_) | Expr::Lambda { .. } | Expr::Let { .. } | Expr::Assign { .. } | Expr::MacroCall { .. } | Expr::Apply(_, _) | Expr::ModExpr(_) => false,
+                    Expr::If(a, b, c) => mentions_nothing(a) && mentions_nothing(b) && mentions_nothing(c),
+                    Expr::Prim(_, args) | Expr::List(args) => args.iter().all(mentions_nothing),
+                    Expr::QQList(items) => items.iter().all(|i| match i {
+                        Ok(_) => true,
+                        Err(e) => mentions_nothing(e),
+                    }),
+                    _ => true,
+                }
+            }
+            let accessor = prog.helpers.iter().any(|h| matches!(h, Helper::Defun { name: n, body, .. } if n == name && (matches!(body, Expr::Var(_)) || mentions_nothing(body))));
             if entry.is_none() && accessor {
                 st.label("accessor-shares-its-code-hash(skip)");
                 continue;
